@@ -682,7 +682,12 @@ func (s *sender) handleRcvdSegment(seg *segment) {
 
 	// Stash away the current window size.
 	// 存放当前窗口大小。
-	s.sndWnd = seg.window
+	// A segment whose acknowledgment number is behind SND.UNA is an old one
+	// (reordered or duplicated by the network): its window describes the
+	// peer's buffer at an earlier time and must not replace newer information.
+	if !seg.ackNumber.LessThan(s.sndUna) {
+		s.sndWnd = seg.window
+	}
 
 	// Ignore ack if it doesn't acknowledge any new data.
 	// 获取确认号
